@@ -5,6 +5,7 @@
 -/
 import Gozod.Model.JsonSchema
 import Gozod.Model.JsonSchemaLazy
+import Gozod.Model.JsonSchemaRec
 namespace Gozod.Drv.C07
 open Gozod.Jsc
 
@@ -529,7 +530,66 @@ def convertX (lg : Bool) (o : Opts) (dup : Bool) (x : X) : Option JS :=
 /-- the harness writes `mapf` on a tree whose convertMap drops the key schema. -/
 def isLegacy (ts : List String) : Bool := ts.contains "mapf"
 
-def handle : List String → String
+/-! ### the recursive family `( recV WRAP LEAF )` (Model/JsonSchemaRec.lean); `recv` = the tree's convertLazy answers a
+    cycle that does not close at the root with `{"$ref":"#"}` (before the fix C07-lazy-ref-nonroot; probed) -/
+
+def pWrap : String → Option Wrap
+  | "root" => some .root | "field" => some .field | "slice" => some .slice | _ => none
+
+def pRec : List String → Option (Bool × Wrap × S × List String)
+  | "(" :: tag :: w :: ts =>
+    if tag == "recV" || tag == "recv" then do
+      let w ← pWrap w
+      let (leaf, ts) ← pS ts
+      let (_, ts) ← expect ")" ts
+      pure (tag == "recv", w, leaf, ts)
+    else none
+  | _ => none
+
+/-- V's document: `anyOf [leaf, {type: array, items: {$ref}}]` (canonical text). -/
+def vDoc (leafJ ref : String) : String :=
+  "{\"anyOf\":[" ++ leafJ ++ ",{\"items\":{\"$ref\":\"" ++ ref ++ "\"},\"type\":\"array\"}]}"
+
+/-- the whole document as emitted (recursive definitions are not inlined by the harness). -/
+def recDoc (lg : Bool) (w : Wrap) (leaf : S) : String :=
+  let leafJ := renderJS (toJS false false false leaf)
+  let ref := if lg then "#" else "#/$defs/def1"
+  let defs := if lg then "" else "\"$defs\":{\"def1\":" ++ vDoc leafJ ref ++ "},"
+  match w with
+  | .root => vDoc leafJ "#"
+  | .field => "{" ++ defs ++ "\"additionalProperties\":false,\"properties\":{\"val\":" ++ vDoc leafJ ref
+                ++ "},\"required\":[\"val\"],\"type\":\"object\"}"
+  | .slice => "{" ++ defs ++ "\"items\":" ++ vDoc leafJ ref ++ ",\"type\":\"array\"}"
+
+def recInstLine (lg : Bool) (w : Wrap) (leaf : S) (v : Json) : String :=
+  let valid := fun x => if lg then validTL w leaf x else validTF w leaf x
+  let p := acceptsT w leaf v
+  let rs := dedup (ifNot (!(lg && w != .root)) "lazy-ref-root" ++ ifNot (!leaf.acceptsNull) "union-nil-member"
+                   ++ reasons false false false leaf ++ instReasons v)
+  let coherent := rs.isEmpty == (reprRec leaf && (!lg || w == .root) && instOK v)
+  b2s p ++ " " ++ (if p then b2s (valid v) else "-") ++ " " ++ b2s (valid v)
+    ++ "\t" ++ (if coherent then "" else "INCOHERENT,") ++ ",".intercalate rs
+
+def recDocOp (ts : List String) : Option String :=
+  match pRec ts with
+  | some (lg, w, leaf, []) => some ("1 " ++ recDoc lg w leaf)
+  | _ => none
+
+def recInstOp (ts : List String) : Option String :=
+  match pRec ts with
+  | some (lg, w, leaf, rest) => (match pJ rest with
+      | some (v, []) => some (recInstLine lg w leaf v)
+      | _ => none)
+  | none => none
+
+def handleRec : List String → Option String
+  | "doc" :: ts => recDocOp ts
+  | "inst" :: ts => recInstOp ts
+  | "hdoc" :: _k :: _o :: ts => recDocOp ts       -- the harness converts this family with default options only
+  | "hinst" :: _k :: _o :: ts => recInstOp ts
+  | _ => none
+
+def handleBase : List String → String
   | "doc" :: ts =>
     match pX ts with
     | some (x, []) => docLine (convertX (isLegacy ts) {} false x)
@@ -554,5 +614,10 @@ def handle : List String → String
       | _, _ => "bad-op"
     | _, _ => "bad-op"
   | _ => "bad-op"
+
+def handle (ts : List String) : String :=
+  match handleRec ts with
+  | some r => r
+  | none => handleBase ts
 
 end Gozod.Drv.C07
